@@ -48,6 +48,7 @@ class World(object):
     def close(self):
         self.pool = []
         self.held = []
+        self.bulk = []
         gc.collect()
 
     def _bump(self, k):
@@ -89,6 +90,46 @@ class World(object):
                 self._add(o, k, tt)
         elif kind == 'unhold':
             self.held = []
+        elif kind == 'bulk':
+            # SIZE: many diagrams alive at once (random sums of products and products of sums), so that
+            # popular nodes - the terminals, the last variables - have dozens to hundreds of parents
+            _, count, seedv, k = op
+            k %= len(self.orders)
+            rnd = [seedv * 2654435761 % (1 << 32) or 1]
+
+            def nxt(m):
+                rnd[0] = (rnd[0] * 1103515245 + 12345) % (1 << 31)
+                return (rnd[0] >> 8) % m
+            made = []
+            for c in range(count):
+                terms = []
+                for _t in range(2 + nxt(3)):
+                    lits = []
+                    for v in self.vars:
+                        r_ = nxt(4)
+                        if r_ == 0:
+                            lits.append(('v', v))
+                        elif r_ == 1:
+                            lits.append(('not', ('v', v)))
+                    if not lits:
+                        lits = [('v', self.vars[nxt(self.nv)])]
+                    terms.append(lits)
+                sop = c % 2 == 0
+                inner, outer = ('and', 'or') if sop else ('or', 'and')
+                expr = (outer,) + tuple((inner,) + tuple(l) if len(l) > 1 else l[0] for l in terms) if len(terms) > 1 else \
+                    ((inner,) + tuple(terms[0]) if len(terms[0]) > 1 else terms[0][0])
+                o = OBDD(bdd.to_str(expr), list(self.orders[k]))
+                tt = bdd.eval_tt(expr, self.vars)
+                if c % 7 == 0 and bdd.walk_tt(o.root, self.vars) != tt:
+                    raise AssertionError('a diagram of the bulk denotes another function')
+                made.append((o, k, tt))
+            self.bulk = getattr(self, 'bulk', []) + made
+            # two of them join the pool, where the invariant compares them with everything else
+            for (o, k_, tt) in made[:2]:
+                self._add(o, k_, tt)
+            self.flags.add('hundreds of diagrams alive at once' if len(self.bulk) >= 100 else 'dozens of diagrams alive at once')
+        elif kind == 'unbulk':
+            self.bulk = []
         elif kind == 'churn':
             # a caller looking for a good ordering: the same small function under MANY other orderings
             # (permutations of the variables, then orderings with further variables in them), each
@@ -272,6 +313,39 @@ def check_history(inp):
     return None
 
 
+def size_logs(nvars_list, seeds, count):
+    """Deterministic histories with MANY diagrams alive at once over 7-10 variables, followed by every
+    way of re-creating a function that is alive."""
+    out = []
+    for nv in nvars_list:
+        vs = ['t%d' % i for i in range(nv)]
+        for sd in seeds:
+            order = vs[sd % nv:] + vs[:sd % nv]
+            log = [['bulk', count, 1000 + sd, 0]]
+            for i in range(4):
+                log += [['restr', i], ['bin', 'and', i, i], ['bin', 'or', i, i], ['inv', i], ['inv', -1], ['shannon', i, 1],
+                        ['lambda', 0, ['and', ['v', 'v0'], ['or', ['v', 'v%d' % (1 + i)], ['not', ['v', 'v%d' % (2 + i)]]]]],
+                        ['parse', 0, ['or', ['v', 'v%d' % i], ['and', ['v', 'v%d' % (i + 1)], ['v', 'v%d' % (i + 2)]]], 'sym'],
+                        ['parse', 0, ['or', ['v', 'v%d' % i], ['and', ['v', 'v%d' % (i + 1)], ['v', 'v%d' % (i + 2)]]], 'word']]
+            log += [['gc'], ['printall'], ['bulk', count // 2, 2000 + sd, 0], ['restr', 0], ['inv', 1], ['inv', -1]]
+            out.append({'orders': [order, list(reversed(order))], 'log': log})
+    return out
+
+
+def size_shard(st, shard, nshards, payload):
+    for i, inp in enumerate(size_logs(payload['nvars'], payload['seeds'], payload['count'])):
+        if i % nshards != shard:
+            continue
+        st.evaluations += len(inp['log'])
+        st.nontrivial_digests.add(core.digest(inp['log'] + inp['orders']))
+        st.bump('size histories (%d variables)' % len(inp['orders'][0]))
+        f = check_history(inp)
+        if f is not None:
+            if st.failure is None:
+                st.failure = f
+            return
+
+
 CHECKS = {'history': check_history}
 
 
@@ -421,6 +495,16 @@ def machine_shard(st, shard, nshards, payload):
         def print_everything(self):
             self._do(['printall'])
 
+        @precondition(lambda self: self.world is not None and self.world.counts.get('bulk', 0) < 1 and
+                      sum(map(ord, ''.join(self.orders[0] + self.orders[1]))) % 3 == 0)
+        @rule(count=hs.sampled_from([40, 110, 110]), seedv=hs.integers(1, 10 ** 6), k=hs.integers(0, 1))
+        def bulk_build(self, count, seedv, k):
+            self._do(['bulk', count, seedv, k])
+
+        @rule()
+        def bulk_drop(self):
+            self._do(['unbulk'])
+
         @precondition(lambda self: self.world is not None and self.world.counts.get('churn', 0) < 2)
         @rule(count=hs.sampled_from([3, 30, 135, 135, 260]), which=hs.integers(0, 6))
         def churn_orderings(self, count, which):
@@ -505,5 +589,14 @@ def run(ctx):
                        'placement is part of the generated history; no threads']
     f = core.run_sharded(ctx, machine_shard, {'machines': machines, 'steps': steps, 'seed': ctx.seed},
                          nshards=shards)
+    if f is not None:
+        ctx.violation(f)
+        return
+    sp = {'nvars': ctx.pick([7, 9], [7, 8, 9, 10, 11]), 'seeds': ctx.pick([1, 2, 3, 4], list(range(1, 17))),
+          'count': ctx.pick(150, 320)}
+    ctx.scopes.append('size: deterministic histories with %d + %d random sums of products / products of sums alive at once over %s variables, '
+                      'then every way of re-creating live functions (restr, f&f, f|f, ~~f, Shannon rebuild, lambda, parse)' % (
+                          sp['count'], sp['count'] // 2, sp['nvars']))
+    f = core.run_sharded(ctx, size_shard, sp)
     if f is not None:
         ctx.violation(f)
